@@ -106,6 +106,16 @@ VARIANTS = [
          expect=("C13-INVALIDATE", "register_preset")),
     dict(name="twin: re-registration drops the memo and both tables", kind="twin", file=I,
          old="        _PRESETS_PATH[preset] = optimizer\n", new="        _PRESETS_PATH[preset] = optimizer\n        preset_to_optimizer.cache_clear()\n        _PATH_CACHE.clear()\n        _CONTRACT_EXPR_CACHE.clear()\n"),
+    dict(name="seed C13_11: via taken out of the kwargs, lost on the unhashable fallback", kind="break",
+         edits=[(I, "    if cache and can_hash_optimize(optimize.__class__):\n        try:\n            key = hash_contraction(\n                inputs, output, size_dict, optimize, **kwargs\n            )\n            try:\n                expr = _CONTRACT_EXPR_CACHE[key]",
+                    "    if cache and can_hash_optimize(optimize.__class__):\n        via = kwargs.pop(\"via\", None)\n        try:\n            key = hash_contraction(\n                inputs, output, size_dict, optimize, **kwargs\n            )\n            try:\n                expr = _CONTRACT_EXPR_CACHE[key]"),
+                (I, "                expr = _CONTRACT_EXPR_CACHE[key] = _build_expression(\n                    inputs, output, size_dict, optimize=optimize, **kwargs\n                )\n        except TypeError:",
+                    "                expr = _CONTRACT_EXPR_CACHE[key] = _build_expression(\n                    inputs, output, size_dict, optimize=optimize, **kwargs\n                )\n            if via is not None:\n                expr = Via(expr, *via)\n        except TypeError:")],
+         expect=("C13-UNHASH", "popped:via")),
+    dict(name="seed C13_12: one HyperOptimizer per option set kept in module state", kind="break",
+         edits=[("cotengra/__init__.py", "    optimizer = HyperOptimizer(**opts)\n", "    try:\n        optimizer = _HYPER_PRESET_OPTIMIZERS[str(opts)]\n    except KeyError:\n        optimizer = _HYPER_PRESET_OPTIMIZERS[str(opts)] = HyperOptimizer(**opts)\n"),
+                ("cotengra/__init__.py", "def hyper_optimize(\n", "_HYPER_PRESET_OPTIMIZERS = {}\n\n\ndef hyper_optimize(\n")],
+         expect=("C13-RETAINED", "parked:HyperOptimizer")),
 ]
 for v in VARIANTS:
     if v.get("edits"):
